@@ -131,6 +131,10 @@ def _dict_to_obj(tpm_type, dict_obj: dict[str, any], command_code=None):
 def _to_obj(tpm_type, value, command_code=None):
     """If value is dict, tpm_type is the type it should be converted to."""
     if isinstance(value, dict):
+        if not value and tpm_type not in (None, Any) and len(fields(tpm_type)) > 0:
+            # no child events although the type has fields: the part is absent (empty TPM2B
+            # payload, union without payload). The decoder represents that as None.
+            return None
         return _dict_to_obj(tpm_type, value, command_code=command_code)
     elif isinstance(value, list):
         return _list_to_obj(tpm_type, value)
